@@ -5,6 +5,8 @@ import SurfProofs.Lemmas.SixelDecode
 import SurfProofs.Lemmas.SixelOrder
 import SurfProofs.Lemmas.SixelCache
 import SurfProofs.Lemmas.SixelQuant
+import SurfProofs.Lemmas.SixelDraw
+import SurfProofs.Lemmas.SixelNoPanic
 /-!
 # C12 — sixel output decodes to the quantised image, exact when colours fit the palette
 
@@ -264,35 +266,111 @@ example :
   · intro y x _ _; simp only [src]; split <;> decide
   · intro y x _ _; simp only [src]; split <;> simp
 
-/-! ## drawing the same image again -/
+/-! ## `draw` from the image on: every image, lossy ones included -/
+
+/-- `C12_draw_wellformed` — the first sentence of the property, with no hypothesis about quantisation.
+`drawFresh w h px looked order` is the model of `draw` on a cache miss for the view of `w` columns and `h`
+rows with the (composited) pixels `px`: truncation to `h/6·6` rows, channel reduction, the model of
+`Image::quantize(256, true, bg)` of property C13 (`looked`: whatever colours the error diffusion hands to
+the palette lookup — arbitrary, one per pixel), then the encoder.  For EVERY view, every `looked` and every
+iteration order:
+* no column, or fewer than six rows: nothing is written (the code's `None => return Ok(())`);
+* otherwise the call neither panics nor hangs, and what it writes is accepted by the reference interpreter
+  as one sixel sequence giving a raster of the declared size `w × h/6·6`, every pixel painted, nothing
+  outside, between 1 and 256 colour registers defined
+  (C13's palette bound `1 ≤ |pal| ≤ max 256 8` and index validity, composed with `C12_decodes`' lemma). -/
+theorem C12_draw_wellformed (w h : Nat) (px : List RGB) (looked : List SurfModel.SixelDraw.QRGB)
+    (order : QImg → Nat → List Nat)
+    (hsize : px.length = h * w) (hlooked : looked.length = truncHeight h * w)
+    (hord : ∀ q : QImg, q.h % 6 = 0 → OrderOk q (order q)) :
+    ((w = 0 ∨ h < 6) → SurfModel.SixelDraw.drawFresh w h px looked order = .wrote []) ∧
+    (0 < w → 6 ≤ h →
+      ∃ bytes r, SurfModel.SixelDraw.drawFresh w h px looked order = .wrote bytes ∧ sixel bytes = some r
+        ∧ r.width = w ∧ r.height = truncHeight h
+        ∧ r.pix.length = truncHeight h ∧ (∀ row ∈ r.pix, row.length = w)
+        ∧ (∀ y x, y < truncHeight h → x < w → (r.get x y).isSome = true)
+        ∧ r.outside = 0 ∧ 1 ≤ r.registers.length ∧ r.registers.length ≤ 256) :=
+  ⟨SurfProofs.Lemmas.SixelDraw.drawFresh_nothing w h px looked order,
+   fun hw hh => SurfProofs.Lemmas.SixelDraw.drawFresh_wellformed w h px looked order hsize hlooked hw hh hord⟩
+
+/-- hypotheses met: a 3 × 7 view (one row is cut off), any `looked` of the right length, colours ascending -/
+example :
+    (List.replicate 21 (⟨1, 2, 3⟩ : RGB)).length = 7 * 3
+      ∧ (List.replicate 18 (⟨9, 9, 9⟩ : SurfModel.SixelDraw.QRGB)).length = truncHeight 7 * 3
+      ∧ ∀ q : QImg, q.h % 6 = 0 → OrderOk q (sortedOrder q) :=
+  ⟨by simp, by simp [truncHeight], fun q h6 => sortedOrder_ok q h6⟩
+
+/-- `C12_draw_exact` — the second sentence through `draw`: let `src` give the composited 8-bit pixels of a
+view of `w > 0` columns and `h ≥ 6` rows; if the rows that are kept (`y < h/6·6`) have at most 256 distinct
+colours at 0-100 resolution and are few enough not to be subsampled, `draw` (zero-error dithering, which is
+what happens then) writes bytes that decode to exactly those rows at 0-100 resolution. -/
+theorem C12_draw_exact (w h : Nat) (src : Nat → Nat → RGB) (order : QImg → Nat → List Nat)
+    (hw : 0 < w) (hh : 6 ≤ h)
+    (hsrc : ∀ y x, y < truncHeight h → x < w → (src y x).r < 256 ∧ (src y x).g < 256 ∧ (src y x).b < 256)
+    (hfit : AtMostColours 256 w (truncHeight h) (fun y x => at100 (src y x)))
+    (hsmall : w * truncHeight h / (256 * 100) < 2)
+    (hord : ∀ q : QImg, q.h % 6 = 0 → OrderOk q (order q)) :
+    ∃ bytes r, SurfModel.SixelDraw.drawFreshExact w h (rowMajor w h src) order = .wrote bytes
+      ∧ sixel bytes = some r ∧ r.width = w ∧ r.height = truncHeight h ∧ r.outside = 0
+      ∧ ∀ y x, y < truncHeight h → x < w → r.get x y = some (at100 (src y x)) := by
+  have hth : 0 < truncHeight h := by have := SurfProofs.Lemmas.SixelDraw.truncHeight_pos hh; omega
+  obtain ⟨pal, is, hq, hall⟩ := C12_exact_quant w (truncHeight h) src hw hth
+    (SurfProofs.Lemmas.SixelDraw.truncHeight_mod h) hsrc hfit hsmall
+  obtain ⟨r, hr, hrw, hrh, hout, hget⟩ := hall (order (qimgOf w (truncHeight h) is))
+    (hord _ (SurfProofs.Lemmas.SixelDraw.truncHeight_mod h))
+  refine ⟨_, r, ?_, hr, hrw, hrh, hout, hget⟩
+  simp only [SurfModel.SixelDraw.drawFreshExact, SurfProofs.Lemmas.SixelDraw.reduced_rowMajor, hq,
+    SurfModel.SixelDraw.drawWith]
+  rfl
+
+/-! ## the `usize` subtractions of `draw` -/
+
+/-- `C12_no_underflow`.  The two subtractions of `draw` that would panic on overflow never do:
+`column - offset` in the line assembly (for the vector stored under any colour of any band of any index
+image: the model with the checked subtraction `encodeLine?` agrees with `encodeLine`), and
+`self.size -= lru_image.len()` in the eviction loop (on every reachable handler). -/
+theorem C12_no_underflow :
+    (∀ (q : QImg) (b c : Nat), encodeLine? 0 (bandLine q b c) = some (encodeLine 0 (bandLine q b c)))
+    ∧ (∀ (hd : Handler) (key : Nat) (enc : List UInt8), Wf hd →
+        evictLru? hd.cap ((key, enc) :: hd.imgs).reverse (hd.size + enc.length)
+          = some (evictLru hd.cap ((key, enc) :: hd.imgs).reverse (hd.size + enc.length))) :=
+  ⟨SurfProofs.Lemmas.SixelNoPanic.bandLine_no_underflow, SurfProofs.Lemmas.SixelNoPanic.draw_no_underflow⟩
+
+/-! ## drawing the same image again
+
+`Handler` carries its budget `cap` (the real handler compares `size` with `IMAGE_CACHE_SIZE`; the
+verification hook `verif_c12::with_cache_size` builds handlers with other budgets so that the eviction
+loop is executed by the correspondence runs).  `Handler.new.cap = imageCacheSize`, the constant
+regenerated from the code on every run, and no draw changes it. -/
 
 /-- `C12_repeat`.  On a handler in any reachable state (`Wf`: holds for a new handler and is kept by every
 draw), drawing an image and then drawing it again emits the same bytes, whatever a fresh encoding would
-give the second time (`enc₂`: a new `HashMap` may iterate differently) — provided the bytes fit the cache
-(`imageCacheSize` = the regenerated `IMAGE_CACHE_SIZE`, see `C12_cache_size`; a larger encoding is evicted
-at once and re-encoded). -/
+give the second time (`enc₂`: a new `HashMap` may iterate differently) — provided the bytes fit the budget
+(a larger encoding is evicted at once and re-encoded). -/
 theorem C12_repeat (hd : Handler) (key : Nat) (enc₁ enc₂ : List UInt8) (hwf : Wf hd)
-    (hfit : (hd.draw key enc₁).1.length ≤ imageCacheSize) :
+    (hfit : (hd.draw key enc₁).1.length ≤ hd.cap) :
     ((hd.draw key enc₁).2.draw key enc₂).1 = (hd.draw key enc₁).1 := by
   have := lookup_after_draw hd key enc₁ hwf hfit
   generalize hd.draw key enc₁ = res at this ⊢
   unfold Handler.draw
   simp [this]
 
-/-- every handler reachable from `SixelImageHandler::new` satisfies the invariant -/
+/-- every handler reachable from `SixelImageHandler::new` satisfies the invariant and has the budget
+`IMAGE_CACHE_SIZE` -/
 theorem C12_repeat_reachable :
-    Wf Handler.new ∧ ∀ hd key enc, Wf hd → Wf (hd.draw key enc).2 :=
-  ⟨wf_new, fun hd key enc h => wf_draw hd key enc h⟩
+    (Wf Handler.new ∧ Handler.new.cap = imageCacheSize)
+      ∧ ∀ hd key enc, (Wf hd → Wf (hd.draw key enc).2) ∧ (hd.draw key enc).2.cap = hd.cap :=
+  ⟨⟨wf_new, rfl⟩, fun hd key enc => ⟨fun h => wf_draw hd key enc h, draw_cap hd key enc⟩⟩
 
 /-- a first draw on a new handler (a miss) followed by a second one: hypotheses met -/
-example : Wf Handler.new ∧ ((Handler.new.draw 7 [1, 2, 3]).1.length ≤ imageCacheSize) := by
+example : Wf Handler.new ∧ ((Handler.new.draw 7 [1, 2, 3]).1.length ≤ Handler.new.cap) := by
   refine ⟨wf_new, ?_⟩
   simp [Handler.draw, Handler.new, imageCacheSize, SurfModel.Generated.SixelCache.imageCacheSize]
 
-/-- The budget against which all of this is stated is the constant of the current build of /repo
+/-- The budget of every handler made by `new` is the constant of the current build of /repo
 (`SurfModel.Generated.SixelCache`, regenerated through the hook `image::verif_c12` on every run), and it
 is 128 MiB. -/
-theorem C12_cache_size : imageCacheSize = 134217728 := by decide
+theorem C12_cache_size : imageCacheSize = 134217728 ∧ Handler.new.cap = 134217728 := by decide
 
 /-- `C12_repeat_session`.  A whole session on one handler: draw an image, then draw any sequence `ops` of
 images (hits or misses, `total ops` = the sum of the lengths of their encodings), then draw the first
@@ -300,11 +378,11 @@ image again.  As long as what the handler held before plus everything encoded in
 the budget, the last draw emits exactly the bytes of the first, whatever a fresh encoding would give. -/
 theorem C12_repeat_session (hd : Handler) (key : Nat) (enc₁ enc₂ : List UInt8)
     (ops : List (Nat × List UInt8))
-    (hbudget : hd.size + enc₁.length + total ops ≤ imageCacheSize) :
+    (hbudget : hd.size + enc₁.length + total ops ≤ hd.cap) :
     ((drawAll (hd.draw key enc₁).2 ops).draw key enc₂).1 = (hd.draw key enc₁).1 := by
   have h1 := lookup_after_draw_budget hd key enc₁ (by omega)
   have h2 := (draw_keeps hd key enc₁ (by omega)).1
-  have h3 := drawAll_keeps ops (hd.draw key enc₁).2 (by omega) key _ h1
+  have h3 := drawAll_keeps ops (hd.draw key enc₁).2 (by rw [draw_cap]; omega) key _ h1
   generalize hd.draw key enc₁ = res at h3 ⊢
   unfold Handler.draw
   simp [h3]
@@ -312,7 +390,7 @@ theorem C12_repeat_session (hd : Handler) (key : Nat) (enc₁ enc₂ : List UInt
 /-- a session of three other images between the two draws, on a new handler: hypothesis met -/
 example :
     Handler.new.size + ([1, 2, 3] : List UInt8).length
-      + total [(8, [4, 5]), (9, [6]), (8, [7, 7, 7])] ≤ imageCacheSize := by
+      + total [(8, [4, 5]), (9, [6]), (8, [7, 7, 7])] ≤ Handler.new.cap := by
   simp [Handler.new, total, imageCacheSize, SurfModel.Generated.SixelCache.imageCacheSize]
 
 end SurfProofs.C12
